@@ -76,13 +76,13 @@ def body(chk):
         positions = allpos
     chk.bounds = {'positions': '%d of %d syntactic positions (%s)' % (len(positions), len(allpos), 'quick: fixed core + 3 rotating by seed' if chk.quick else 'all'),
                   'forms': 'all canonical / non-matching / near-miss forms of DESIGN.md section 8 per detector; shift_math literal = symbolic 130-bit natural',
-                  'occurrences per file': '1 (all positions), 2 (same function, two contracts) and 3-5 seeded (form, position) members composed into one file (12 files per detector, thorough 120)',
+                  'occurrences per file': '1 (all positions), 2 (same function, two contracts) and 3-5 (shift_math: 2-3) seeded (form, position) members composed into one file (12 files per detector, thorough 120)',
                   'outside': 'deeper nesting of positions inside positions (covered by C01\'s induction), inline assembly content'}
     chk.assumptions = ['tree families are parser-producible: every validated path is printed, re-parsed by the real parser and compared with the executed tree',
                        'Vec/HashSet/Option/String contracts of DESIGN.md 2.4; Loc offsets are free symbols (results may not depend on them)']
     items = []
     for d in DETECTORS:
-        chunk = 4 if chk.quick else 6
+        chunk = 2 if chk.quick else 6
         for k in range(0, len(positions), chunk):
             items.append((d, positions[k:k + chunk], False))
         n = len(fam.forms_for(d, sol.TreeBuilder()))
@@ -90,11 +90,14 @@ def body(chk):
         if chk.quick:
             chk.rng.shuffle(pairs)
             pairs = pairs[:40]
-        for k in range(0, len(pairs), 40):
-            items.append((d, pairs[k:k + 40], True))
+        for k in range(0, len(pairs), 8):
+            items.append((d, pairs[k:k + 8], True))
         ncomp = 12 if chk.quick else 120
-        combos = [[(chk.rng.randrange(n), chk.rng.choice(allpos)) for _ in range(chk.rng.choice([3, 4, 5]))] for _ in range(ncomp)]
-        items.append((d, combos, 'composed'))
+        # (shift_math: every member carries a symbolic 130-bit literal, the paths multiply per member -> two or three members per file)
+        sizes_ = [2, 3] if d == 'shift_math' else [3, 4, 5]
+        combos = [[(chk.rng.randrange(n), chk.rng.choice(allpos)) for _ in range(chk.rng.choice(sizes_))] for _ in range(ncomp)]
+        for k in range(0, len(combos), 1):
+            items.append((d, combos[k:k + 1], 'composed'))          # one file per job: a file with several symbolic literals is slow
     chk.parallel(job, items)
     # vacuity guard: every detector's family must contain paths that report and paths that do not
     for d in DETECTORS:
